@@ -159,6 +159,7 @@ def run(ctx):
             if r and "crash" not in r and "expect_chain" in c:
                 w = oracle(c, r)
                 r["c04_verdict"] = w
+                r["more_all"] = r.get("more")        # kept for the replay of all connections through Model/MultiRun.v
                 r["more"] = None
         return rs
 
